@@ -45,7 +45,7 @@ def budget(tier: str) -> dict[str, Any]:
 def gen(rng: Any, tier: str, i: int) -> Any:
     if rng.random() < 0.04:
         return _gen_handles(rng)
-    if rng.random() < 0.03:
+    if rng.random() < 0.06:
         # "proposals older than the maximum age stop counting" as the power manager wires it: the real
         # PowerManagingActor with regular and operating-point actors, long silences, clean-up timer (C11's driver/oracle)
         from . import c11
